@@ -36,6 +36,7 @@ def check(repo: Repo, R) -> None:
         R.run(selection, repo, R, m)
         R.run(defaults_and_dispatch, repo, R, m)
         R.run(caches, repo, R, m)
+        R.run(literal_sizes_scaled_whole, repo, R, m)
     R.run(small_pdks, repo, R, prims)
     R.run(registry, repo, R)
     R.run(logic_cells, repo, R)
@@ -322,6 +323,35 @@ def defaults_and_dispatch(repo: Repo, R, m: pt.PdkModel):
                         ok = given = False
         ok, given = ok and n_ret > 0, given and n_ret > 0
         R.check(ok and given, rule, f"pdks/{m.name}::use_defaults", ud.site, f"{m.name}.use_defaults: given sizes are used ({given}); missing ones come from (width, length) of the PDK default for that device ({ok})", why="width and length defaults are exchanged, or given sizes are ignored")
+
+
+def literal_sizes_scaled_whole(repo: Repo, R, m: pt.PdkModel):
+    """Where a PDK rescales a size given as a Literal expression, the factor applies to the whole expression: the text is
+    put in its own parentheses before anything is appended to it."""
+    rule = "C15.3-selection-well-formed"
+    sp = m.walker.methods.get("scale_param")
+    if sp is None:
+        return
+    n = 0
+    for c in au.calls_in(sp.node):
+        if not (isinstance(c.func, ast.Attribute) and c.func.attr == "Literal" or isinstance(c.func, ast.Name) and c.func.id == "Literal") or len(c.args) != 1:
+            continue
+        v = shared.prov(sp.node, c.args[0])
+        if not isinstance(v, ast.JoinedStr):
+            continue
+        parts = v.values
+        for i, part in enumerate(parts):
+            if isinstance(part, ast.FormattedValue) and ast.unparse(part.value).endswith(".text"):
+                before = parts[i - 1].value if i > 0 and isinstance(parts[i - 1], ast.Constant) else ""
+                after = parts[i + 1].value if i + 1 < len(parts) and isinstance(parts[i + 1], ast.Constant) else ""
+                alone = not before.strip() and not after.strip()
+                wrapped = before.rstrip().endswith("(") and after.lstrip().startswith(")")
+                n += 1
+                R.check(alone or wrapped, rule, key_of(sp, "literal-scaled-whole"), sp.at(c),
+                        f"{m.name}.scale_param builds `{ast.unparse(v)}`: the given expression stands in parentheses of its own: {alone or wrapped}",
+                        why="a compound size such as `wn + dw` becomes `(wn + dw * 1e6)`: only the last term is scaled, the device is sized wrongly")
+    if n < 1:
+        raise AnalysisError(f"idiom-unknown: {sp.site} builds no Literal from the given expression's text")
 
 
 def caches(repo: Repo, R, m: pt.PdkModel):
